@@ -1,0 +1,102 @@
+// SPDX-FileCopyrightText: 2026 The Pion community <https://pion.ly>
+// SPDX-License-Identifier: MIT
+
+//go:build verif
+
+package fmtp
+
+// Contracts for C17 (codec compatibility is symmetric and case-insensitive). Comments
+// only; syntax in /verif/DESIGN.md section 4. Mime types are taken to be ASCII: then
+// strings.EqualFold(a, b) <=> strings.ToLower(a) == strings.ToLower(b) (the engine's axiom).
+
+//@ func defaultClockRate
+//@ props C17
+//@ ensures result == ite(strings.ToLower(mimeType) == "audio/opus", uint32(48000), ite(strings.ToLower(mimeType) == "audio/pcmu" || strings.ToLower(mimeType) == "audio/pcma", uint32(8000), uint32(90000)))
+//@ modifies nothing
+
+//@ func defaultChannels
+//@ props C17
+//@ ensures result == ite(strings.ToLower(mimeType) == "audio/opus", uint16(2), uint16(0))
+//@ modifies nothing
+
+//@ func ClockRateEqual
+//@ props C17
+//@ ensures result == (ite(valA == 0, ite(strings.ToLower(mimeType) == "audio/opus", uint32(48000), ite(strings.ToLower(mimeType) == "audio/pcmu" || strings.ToLower(mimeType) == "audio/pcma", uint32(8000), uint32(90000))), valA) == ite(valB == 0, ite(strings.ToLower(mimeType) == "audio/opus", uint32(48000), ite(strings.ToLower(mimeType) == "audio/pcmu" || strings.ToLower(mimeType) == "audio/pcma", uint32(8000), uint32(90000))), valB))
+//@ modifies nothing
+
+//@ func ChannelsEqual
+//@ props C17
+//@ ensures result == (ite(ite(valA == 0, ite(strings.ToLower(mimeType) == "audio/opus", uint16(2), uint16(0)), valA) == 0, uint16(1), ite(valA == 0, ite(strings.ToLower(mimeType) == "audio/opus", uint16(2), uint16(0)), valA)) == ite(ite(valB == 0, ite(strings.ToLower(mimeType) == "audio/opus", uint16(2), uint16(0)), valB) == 0, uint16(1), ite(valB == 0, ite(strings.ToLower(mimeType) == "audio/opus", uint16(2), uint16(0)), valB)))
+//@ modifies nothing
+
+// Two parameter sets are compatible exactly when every key they share has values that are
+// equal up to case (both range loops; each produces every key of its map).
+//@ func paramsEqual
+//@ props C17
+//@ ensures result == (forall k string :: indom(valA, k) && indom(valB, k) ==> strings.EqualFold(valA[k], valB[k]))
+//@ modifies nothing
+//@ loop 0 invariant forall k string :: mapseen(valA, k) && indom(valB, k) ==> strings.EqualFold(valB[k], valA[k])
+//@ loop 1 invariant forall k string :: indom(valA, k) && indom(valB, k) ==> strings.EqualFold(valB[k], valA[k])
+
+// Assumed of encoding/hex: decoding is a function of the string.
+//@ func hex.DecodeString
+//@ trusted
+//@ props C17
+//@ ensures (err == nil) == ufbool("hexok", s) && len(ret0) == int(ufint("hexlen", s)) && ufint("hexlen", s) >= 0 && ufint("hexlen", s) < 1<<40
+//@ ensures err == nil && len(ret0) >= 2 ==> ret0[0] == byte(ufint("hexb0", s)) && ret0[1] == byte(ufint("hexb1", s))
+//@ modifies nothing
+
+//@ func profileLevelIDMatches
+//@ props C17
+//@ ensures result == (ufbool("hexok", a) && ufint("hexlen", a) >= 2 && ufbool("hexok", b) && ufint("hexlen", b) >= 2 && byte(ufint("hexb0", a)) == byte(ufint("hexb0", b)) && byte(ufint("hexb1", a)) == byte(ufint("hexb1", b)))
+//@ modifies nothing
+
+// The Match implementations are executed in place in the harnesses below (their helper
+// functions through the contracts above).
+//@ func (*genericFMTP).Match
+//@ inline
+//@ func (*h264FMTP).Match
+//@ inline
+//@ func (*vp9FMTP).Match
+//@ inline
+//@ func (*av1FMTP).Match
+//@ inline
+//@ func (*genericFMTP).MimeType
+//@ inline
+
+// Symmetry, per kind of description.
+//@ func specSymGeneric
+//@ props C17
+//@ requires a != nil && b != nil
+//@ ensures ret0 == ret1
+//@ func specSymH264
+//@ props C17
+//@ requires a != nil && b != nil
+//@ ensures ret0 == ret1
+//@ func specSymVP9
+//@ props C17
+//@ requires a != nil && b != nil
+//@ ensures ret0 == ret1
+//@ func specSymAV1
+//@ props C17
+//@ requires a != nil && b != nil
+//@ ensures ret0 == ret1
+
+// Descriptions of different kinds never match (so symmetry holds across kinds too).
+//@ func specMixed
+//@ props C17
+//@ requires g != nil && h != nil && v != nil && a != nil
+//@ ensures !result
+
+// Changing the letter case of the mime type changes no result.
+//@ func specCaseGeneric
+//@ props C17
+//@ requires a != nil && a2 != nil && b != nil
+//@ requires strings.EqualFold(a.mimeType, a2.mimeType) && a.clockRate == a2.clockRate && a.channels == a2.channels && a.parameters == a2.parameters
+//@ ensures ret0 == ret1 && ret2 == ret3
+
+// A generic description matches itself.
+//@ func specSelfGeneric
+//@ props C17
+//@ requires a != nil
+//@ ensures result
